@@ -30,3 +30,20 @@ build_vcheck() {
   local scr=$1; shift
   ( cd "$scr/src" && go build -trimpath "$@" -o "$scr/vcheck" ./zzverif/vcheck ) 
 }
+
+# snapshot_root: path of a copy of the committed /verif tree (HEAD), shared by long evaluation pipelines so that
+# edits to the working tree cannot break or change their checks half-way. One copy per commit under /tmp.
+snapshot_root() {
+  local c d
+  c=$(git -C "$VERIF_ROOT" rev-parse --short=12 HEAD) || return 2
+  d=/tmp/verif-snap-$c
+  if mkdir "$d.lock" 2>/dev/null; then
+    if [ ! -x "$d/bin/instrument" ]; then
+      rm -rf "$d"; mkdir -p "$d" && git -C "$VERIF_ROOT" archive HEAD | tar -x -C "$d" && ( cd "$d" && ./setup.sh >/dev/null 2>&1 )
+    fi
+    rmdir "$d.lock"
+  else
+    while [ -d "$d.lock" ]; do sleep 2; done
+  fi
+  echo "$d"
+}
